@@ -151,7 +151,7 @@ func c28Worker(args []string) {
 		fmt.Fprintf(w, "B bad job: %v\n", err)
 		return
 	}
-	g, err := apimodel.Load(goldenTable)
+	g, err := apimodel.Load(filepath.Join(engine.Root, goldenTable))
 	if err != nil {
 		fmt.Fprintf(w, "B %v\n", err)
 		return
@@ -388,7 +388,7 @@ func c28(r *engine.Run) {
 			os.Remove(f)
 		}
 	}
-	g, err := apimodel.Load(goldenTable)
+	g, err := apimodel.Load(filepath.Join(engine.Root, goldenTable))
 	if err != nil {
 		r.Broken("golden table: %v", err)
 		r.Finish(nil)
